@@ -37,6 +37,13 @@ KF = {
 }
 
 
+KF_A = ("F7-A", "a user function invoked through a user alias never returns to the caller: the function's return jumps to line 1 of "
+                "the script (typically an endless loop)", "fn f / return true / end / alias g f / r = g")
+PREDS2 = ["equals", "contains", "starts_with", "user function (ends_with)"]
+PREDS1 = ["is_empty", "user function (is_empty)"]
+PRED_POS = ["direct", "if", "elseif", "while", "not", "alias"]
+
+
 def enc_env(env):
     if not env:
         return "-"
@@ -266,6 +273,79 @@ def run(ck):
                           "theorems": ["C09_roundtrip", "C09_rebind"],
                           "wire": impl_line(extra, args),
                           "replay_cmd": "printf '%s\\n' | .cache/cargo-target/release/c09   (or: bin/vcheck C09 --replay <this file>)" % impl_line(extra, args).replace("\t", "\\t")})
+        # ---- real predicates: the branch taken / the alias result is the one the direct call determines ----------
+        pcases = []
+        short1 = [v for v in vals if len(v) <= 1]
+        for a0 in short1:
+            pcases.append([a0])
+            for a1 in short1:
+                pcases.append([a0, a1])
+        for v in vals:
+            if len(v) == 2:
+                pcases.append([v])
+                pcases.append([v, v])
+                pcases.append([v + "x", v])
+                pcases.append(["x" + v, v])
+        for _ in range(20000 if thorough else 3000):
+            a0 = rand_value(rng, True)
+            r = rng.random()
+            if r < 0.25:
+                pcases.append([a0])
+            elif r < 0.5 and a0:
+                i0 = rng.randint(0, len(a0) - 1)
+                pcases.append([a0, a0[i0:rng.randint(i0, len(a0))]])
+            elif r < 0.7:
+                pcases.append([a0, a0])
+            else:
+                pcases.append([a0, rand_value(rng, True)])
+        pm = [o.split("\t") for o in ck.model([model_line({}, a) for a in pcases])]
+        pi = ck.impl(["P\t-\t%s" % enc_list(a) for a in pcases])
+        p_dom = p_unsafe = p_true = p_false = 0
+        pviol = []
+        for a, f, o in zip(pcases, pm, pi):
+            if len(f) != 5:
+                continue
+            tolerated = f[1] != "-" and not all(KF[c][0] in fixed for c in f[1])
+            if f[0] != "T" and tolerated:
+                p_unsafe += 1
+                continue
+            p_dom += 1
+            words = o.split(" ")
+            names = PREDS2 if len(a) == 2 else PREDS1
+            for nm, w in zip(names, words):
+                letters = [x for x in w if x != "-"]
+                if letters and letters[0] == "T":
+                    p_true += 1
+                elif letters and letters[0] == "F":
+                    p_false += 1
+                if len(words) != len(names) or not letters or letters[0] not in "TF" or any(x != letters[0] for x in letters):
+                    pviol.append((sum(len(x) + 1 for x in a), a, nm, w))
+        pviol.sort(key=lambda t: t[0])
+        for (_, a, nm, w) in pviol[:max(0, 5 - len(ck.violations))]:
+            found = True
+            ck.violation({"kind": "the branch taken / alias result differs from the direct call's output (in-domain arguments)",
+                          "predicate": nm, "arguments": a, "extra_variables": {},
+                          "outcome_per_position": dict(zip(PRED_POS, w)), "seed": ck.seed,
+                          "theorems": ["C09_roundtrip"], "wire": "P\t-\t%s" % enc_list(a),
+                          "replay_cmd": "printf 'P\\t-\\t%s\\n' | .cache/cargo-target/release/c09" % enc_list(a)})
+        # ---- F7-A: an alias of a user function (run apart, under a short time limit: it does not return) ----------
+        fa_status = "not run"
+        if KF_A[0] not in fixed:
+            try:
+                o = ck.impl(["PA\t-\t%s" % enc_list(["a"])], timeout=10)[0]
+                fa_status = "returned " + o
+                if o != "FF":
+                    ck.known("%s %s — witness: %s (outcome direct/alias: %s)" % (KF_A[0], KF_A[1], KF_A[2], o))
+            except Exception as ex:   # subprocess.TimeoutExpired
+                fa_status = "did not return within 10 s"
+                ck.known("%s %s — witness: %s (no result within 10 s)" % (KF_A[0], KF_A[1], KF_A[2]))
+        else:
+            o = ck.impl(["PA\t-\t%s" % enc_list(["a"])], timeout=30)[0]
+            fa_status = "returned " + o
+            if o != "FF":
+                found = True
+                ck.violation({"kind": "a user function invoked through an alias does not give the direct call's result (F7-A is marked fixed)",
+                              "witness": KF_A[2], "outcome": o, "seed": ck.seed})
         if harness_bad:
             k = harness_bad[0]
             found = True
@@ -273,7 +353,7 @@ def run(ck):
                           "arguments": cases[k][1], "extra_variables": cases[k][0], "received": res[k][3], "seed": ck.seed,
                           "wire": impl_line(cases[k][0], cases[k][1])})
         ck.coverage.update({
-            "evaluations": len(cases) * 7,
+            "evaluations": len(cases) * 7 + len(pcases) * 20,
             "cases": len(cases),
             "in_domain_cases": n_dom,
             "in_domain_cases_outside_the_simple_syntactic_classes": n_beyond_simple,
@@ -282,6 +362,10 @@ def run(ck):
             "unsafe_class_cases_differing_by_class_letter": unsafe_by_letter_differs,
             "model_agrees_with_implementation_all_positions": {"cases": model_total, "agree": model_agree,
                                                                "note": "includes the unsafe classes; information only"},
+            "predicate_cases": {"cases": len(pcases), "in_domain": p_dom, "unsafe_class_not_compared": p_unsafe,
+                                "predicate_runs_true": p_true, "predicate_runs_false": p_false,
+                                "predicates": PREDS2 + PREDS1, "positions": PRED_POS,
+                                "alias_of_user_function": fa_status},
             "distinct_nontrivial": len(nontriv),
             "rule": "each case is run in 7 positions (direct, if, elseif, while, not, alias, alias with the first argument stored); "
                     "non-trivial = distinct in-domain argument list with at least one argument that is empty or contains a character "
@@ -301,5 +385,6 @@ def run(ck):
         "through eval_with_error with stored ++ actual arguments, is established by the correspondence run in those seven positions, not by a model of the flow-control commands",
         "the command word is a registered command name made of characters other than white space, #, =, back-slash and double quote, not beginning with ':' or '!' (is_cmd)",
         "include directives cannot occur (the rebuilt line never begins with '!' for such a command word)",
-        "the unsafe classes N Q H D B P E W are tolerated unless known_findings.json marks them fixed",
+        "the unsafe classes N Q H D B P E W (and F7-A, alias of a user function) are tolerated unless known_findings.json marks them fixed",
+        "real predicates (equals, contains, starts_with, is_empty, two user functions) are sampled; the full argument comparison uses a capture command",
     ]
